@@ -83,6 +83,16 @@ func (ex *Exec) rootEnv(s *State, results []Val) *Env {
 		env.vars[p.Name()] = SV{V: fr.Regs[p], T: p.Type()}
 	}
 	for _, fv := range ex.fn.FreeVars {
+		// captured variables are pointers to their cells: the name denotes
+		// the variable's current value
+		if pv, ok := fr.Regs[fv].(PtrV); ok && len(pv.Path) == 0 {
+			if pt, ok := fv.Type().Underlying().(*types.Pointer); ok {
+				if _, isStruct := pt.Elem().Underlying().(*types.Struct); !isStruct || modelKind(pt.Elem()) != "" {
+					env.vars[fv.Name()] = env.readLoc(pv)
+					continue
+				}
+			}
+		}
 		env.vars[fv.Name()] = SV{V: fr.Regs[fv], T: fv.Type()}
 	}
 	if results != nil {
@@ -895,6 +905,22 @@ func (env *Env) evalCall(e *E) SV {
 				env.fail("ret: no call result here")
 			}
 			return *env.s.CurRet
+		case "soff":
+			// absolute offset of a slice in its backing store
+			return SV{V: Scalar{SlOff(env.term(env.eval(args[0])))}, T: types.Typ[types.Int]}
+		case "absat":
+			// element at absolute position p of the slice's backing store
+			a := env.eval(args[0])
+			at := env.term(a)
+			et := a.T.Underlying().(*types.Slice).Elem()
+			es := sortOf(et)
+			p := env.asBV(env.eval(args[1]), 64)
+			m := env.heap(memName(es), SArray(SRef, SArray(SBV(64), es)))
+			v := Select(Select(m, SlBase(at)), p)
+			if env.pats != nil && env.qnames[p.S] {
+				*env.pats = append(*env.pats, v.S)
+			}
+			return SV{V: Scalar{v}, T: et}
 		case "deref":
 			p := env.eval(args[0])
 			pv, ok := p.V.(PtrV)
@@ -1003,6 +1029,28 @@ func (env *Env) evalCall(e *E) SV {
 			ch := env.term(env.eval(args[0]))
 			arr := env.heap("|Chan:closed|", SArray(SRef, SBool))
 			return SV{V: Scalar{Select(arr, ch)}, T: boolT}
+		case "calls":
+			// ghost: number of times the function value has been invoked
+			f := env.term(env.eval(args[0]))
+			arr := env.heap("|Fn:calls|", SArray(SRef, SBV(64)))
+			return SV{V: Scalar{Select(arr, f)}, T: types.Typ[types.Uint64]}
+		case "lastarg":
+			f := env.term(env.eval(args[0]))
+			arr := env.heap("|Fn:lastarg|", SArray(SRef, SIface))
+			return SV{V: Scalar{Select(arr, f)}, T: types.NewInterfaceType(nil, nil)}
+		case "armed":
+			// ghost: the timer is armed (time.AfterFunc called, not stopped, not fired)
+			tm := env.term(env.eval(args[0]))
+			arr := env.heap("|Timer:armed|", SArray(SRef, SBool))
+			return SV{V: Scalar{And(Not(Eq(tm, TNilR)), Select(arr, tm))}, T: boolT}
+		case "armedDelay":
+			tm := env.term(env.eval(args[0]))
+			arr := env.heap("|Timer:delay|", SArray(SRef, SBV(64)))
+			return SV{V: Scalar{Select(arr, tm)}, T: types.Typ[types.Int64]}
+		case "timerFn":
+			tm := env.term(env.eval(args[0]))
+			arr := env.heap("|Timer:fn|", SArray(SRef, SRef))
+			return SV{V: Scalar{Select(arr, tm)}}
 		}
 		// conversion to a named/builtin type?
 		if _, isVar := env.vars[callee.Name]; !isVar {
